@@ -751,15 +751,9 @@ func (c *Compiler) compileSlice(node *ast.Slice) error {
 	if err := c.compile(node.Left()); err != nil {
 		return err
 	}
-	to := node.ToIndex()
-	if to == nil {
-		c.emit(op.Copy, 0)
-		c.emit(op.Length)
-	} else {
-		if err := c.compile(to); err != nil {
-			return err
-		}
-	}
+	// Evaluate the operands left to right: container, start, stop. The Slice
+	// instruction expects the stop index below the start index, so the two
+	// are swapped at the end.
 	from := node.FromIndex()
 	if from == nil {
 		c.emit(op.LoadConst, c.constant(int64(0)))
@@ -768,6 +762,17 @@ func (c *Compiler) compileSlice(node *ast.Slice) error {
 			return err
 		}
 	}
+	to := node.ToIndex()
+	if to == nil {
+		// The container is now one below the top of the stack
+		c.emit(op.Copy, 1)
+		c.emit(op.Length)
+	} else {
+		if err := c.compile(to); err != nil {
+			return err
+		}
+	}
+	c.emit(op.Swap, 1)
 	c.emit(op.Slice)
 	return nil
 }
